@@ -5,10 +5,10 @@ import ast
 import re as _re_mod
 from typing import Dict, List, Optional, Tuple
 
-from ..defuse import assignments
+from ..defuse import assignments, bindings
 from ..evaluator import SIGNAL, Evaluator, caught, covers, enclosing_tries, handler_names, handler_raises_signal
 from ..model import AnalysisError, AstClass, Func, Program, Sym, Unresolvable, norm, parent, short, walk_own, walk_body
-from ..pathcond import PathAnalysis
+from ..pathcond import PathAnalysis, plain
 from ..report import Result
 
 # reference: python operator function implementing `left OP right` for each ast operator class
@@ -54,6 +54,16 @@ def lambda_semantics(lam: ast.Lambda) -> Optional[Tuple[str, int, int]]:
     return name, params.index(l), params.index(r)
 
 
+_PA: Dict = {}
+
+
+def _pa(prog: Program, f: Func) -> PathAnalysis:
+    k = (id(prog), f.key)
+    if k not in _PA:
+        _PA[k] = PathAnalysis(prog, f)
+    return _PA[k]
+
+
 def check(prog: Program, tier: str) -> Result:
     res = Result(
         "C15",
@@ -69,7 +79,7 @@ def check(prog: Program, tier: str) -> Result:
             "evaluation of and/or returns the first falsy / first truthy operand value, else the last; (R15.6) calls are evaluated from their "
             "positional arguments only when they have no keywords; inner functions of the evaluator are not called from outside around the "
             "converting entry (R15.2); (R15.7) a callee name is resolved to the builtin only under a test against the names the analysed "
-            "module binds (known finding). Not decided: "
+            "module binds (known finding); (R15.8) no memo table of the evaluator is keyed by evaluated values (== conflates 1, 1.0 and True). Primitives are followed into helpers and through local callee variables; their guards are read where the callee is formed or at every call of the helper. Not decided: "
             "the values computed by the Python operations themselves, evaluation cost."),
         rule_text="instances = operator table entries, evaluator call sites and primitive foreign calls, whitelist members, consumer handlers",
     )
@@ -82,10 +92,52 @@ def check(prog: Program, tier: str) -> Result:
     _r15_4(prog, res, ev)
     _r15_5(prog, res, ev)
     _r15_6(prog, res, ev)
+    _r15_8(prog, res, ev)
     _r15_7(prog, res, ev)
     res.floors.update({"R15.1": 23, "R15.2": 18, "R15.3": 2, "R15.4": 10, "R15.5": 2, "R15.6": 2})
     res.analysed.update({"evaluator_functions": [f.fq for f in ev.members], "external_call_sites": len(ev.call_sites())})
     return res
+
+
+# ------------------------------------------------------------------------------------------------ R15.8
+def _r15_8(prog: Program, res: Result, ev: Evaluator) -> None:
+    """No memo table keyed by EVALUATED VALUES: functools caches key by hash and ==, under which 1, 1.0 and True (and 0.0 and
+    -0.0; typed=True only tells the top-level arguments apart, not the members of a tuple) are the same key, so the second of
+    str(1) / str(1.0) would answer with the first one's value.  A cache keyed by the NODE is keyed by identity and is fine."""
+    keys = {f.key for f in ev.members}
+
+    def evaluated(e: ast.AST, f) -> bool:
+        for x in ast.walk(e):
+            if isinstance(x, ast.Call):
+                r = prog.resolve_call(x.func, f.mod, f)
+                if r and r[0] == "fn" and r[1].key in keys:
+                    return True
+        return False
+    n = 0
+    for f in ev.members:
+        for c in prog.calls_in(f):
+            r = prog.resolve_call(c.func, f.mod, f)
+            if not (r and r[0] == "fn" and r[1].is_cached):
+                continue
+            callee = r[1]
+            n += 1
+            args = list(c.args) + [k.value for k in c.keywords]
+            hot = None
+            for a in args:
+                exprs = [a]
+                for x in ast.walk(a):
+                    if isinstance(x, ast.Name):
+                        exprs += [v for (_s, v) in bindings(f).get(x.id, []) if v is not None]
+                if any(evaluated(e, f) for e in exprs):
+                    hot = a
+                    break
+            res.decide(hot is None, "R15.8", f.loc(c), f.fq, short(c, 80),
+                       f"memoised {callee.name} is keyed by nodes (identity), not by evaluated values" if hot is None else
+                       f"{callee.name} is memoised and `{norm(hot)}` is an evaluated value: the memo key compares by ==, so 1, 1.0 and True "
+                       "(0.0 and -0.0, and tuples of them even with typed=True) share one entry and the second expression gets the first one's result")
+    if not n:
+        res.ok("R15.8", ev.entry.loc(), ev.entry.fq, f"memoised functions among the evaluator's {len(ev.members)} members # none called with evaluated values",
+               "no memo table keyed by evaluated values exists")
 
 
 # ------------------------------------------------------------------------------------------------ R15.1
@@ -256,8 +308,9 @@ def _r15_3(prog: Program, res: Result, ev: Evaluator) -> None:
     # getattr(builtins, X)(..): X must be the guarded name
     for f, c, kind in ev.primitive_sites():
         if kind == "builtin call":
-            guard_ok = any(role == "dispatch guard" and ff is f for ff, _, role in sets)
-            res.decide(guard_ok, "R15.3", f.loc(c), f.fq, short(c, 70), "dispatch is guarded by a membership test" if guard_ok else "builtin invoked without a whitelist test")
+            guard_ok = ev.dispatch_guards(f, c)[0]
+            res.decide(guard_ok, "R15.3", f.loc(c), f.fq, short(c, 70), "the callee name is known to be in a whitelist where the builtin is looked up" if guard_ok
+                       else "builtin invoked without a whitelist test of its name on every path")
 
 
 # ------------------------------------------------------------------------------------------------ R15.4
@@ -346,25 +399,29 @@ def _r15_7(prog: Program, res: Result, ev: Evaluator) -> None:
     for f, c, kind in ev.primitive_sites():
         if kind != "builtin call":
             continue
-        name_expr = c.func.args[1] if isinstance(c.func, ast.Call) and len(c.func.args) > 1 else None
-        if name_expr is None:
-            continue
-        pa = PathAnalysis(prog, f)
-        worlds = pa.worlds_at(c)
-        subject = norm(name_expr)
-        ok = bool(worlds)
-        for w in worlds:
-            has = False
-            for fct in w.facts:
-                if fct[0] != "lit":
+        ok_any, subject = False, "?"
+        for alt in ev.guard_sites(f, c, kind):
+            ok = bool(alt)
+            for g, at, e, subst in alt:
+                if len(e.args) < 2:
+                    ok = False
                     continue
-                txt = _re_mod.sub(r"#\w+", "", fct[1])
-                # `<name> not in <scope names>` / `<name> in <scope names>` false, where the collection is not a constants.* table
-                if subject in txt and (" in " in txt or txt.startswith("in(")) and "constants." not in txt and "builtins" not in txt:
-                    has = has or (not fct[2])
-            ok = ok and has
-        res.decide(ok, "R15.7", f.loc(c), f.fq, f"{short(c, 70)} # {kind}",
-                   "reached only for names the analysed module does not rebind" if ok else
+                subject = subst.get(norm(e.args[1]), norm(e.args[1]))
+                worlds = _pa(prog, g).worlds_at(at)
+                ok = ok and bool(worlds)
+                for w in worlds:
+                    has = False
+                    for fct in w.facts:
+                        if fct[0] != "lit":
+                            continue
+                        txt = plain(fct[1])
+                        # `<name> not in <scope names>` / `<name> in <scope names>` false, where the collection is not a constants.* table
+                        if subject in txt and (" in " in txt or txt.startswith("in(")) and "constants." not in txt and "builtins" not in txt:
+                            has = has or (not fct[2])
+                    ok = ok and has
+            ok_any = ok_any or ok
+        res.decide(ok_any, "R15.7", f.loc(c), f.fq, f"{short(c, 70)} # {kind}",
+                   "reached only for names the analysed module does not rebind" if ok_any else
                    f"`{subject}` is resolved to the builtin without any test against the names the analysed module binds: with `def len(x): return 5` "
                    "in the module, `len([1]) == 1` is still folded to True")
 
@@ -377,26 +434,27 @@ def _r15_6(prog: Program, res: Result, ev: Evaluator) -> None:
         if kind not in ("builtin call", "method call on evaluated receiver"):
             continue
         passes_kwargs = any(k.arg is None for k in c.keywords)
-        pa = PathAnalysis(prog, f)
-        worlds = pa.worlds_at(c)
-        ok = passes_kwargs
-        why = "keywords are forwarded" if passes_kwargs else ""
-        if not ok and worlds:
-            ok = True
-            for w in worlds:
-                has = False
-                for fct in w.facts:
-                    if fct[0] != "lit":
-                        continue
-                    txt = _re_mod.sub(r"#\w+", "", fct[1]).replace(" ", "")
-                    if fct[2] and "match_template(" in txt and "keywords=[]" in txt:
-                        has = True   # selected by a template that demands an empty keyword list
-                    if not fct[2] and txt.endswith(".keywords"):
-                        has = True   # `if node.keywords: <leave>` / `not node.keywords`
-                ok = ok and has
-            why = "reached only for calls without keyword arguments" if ok else \
-                "the call is evaluated from its positional arguments although it may carry keyword arguments, which are dropped: the value differs from Python's (int('10', base=2), sorted(x, reverse=True), max(x, key=...))"
-        res.decide(ok, "R15.6", f.loc(c), f.fq, f"{short(c, 70)} # {kind}", why)
+        ok_any = passes_kwargs
+        for alt in ([] if passes_kwargs else ev.guard_sites(f, c, kind)):
+            ok = bool(alt)
+            for g, at, _e, _subst in alt:
+                worlds = _pa(prog, g).worlds_at(at)
+                ok = ok and bool(worlds)
+                for w in worlds:
+                    has = False
+                    for fct in w.facts:
+                        if fct[0] != "lit":
+                            continue
+                        txt = plain(fct[1]).replace(" ", "")
+                        if fct[2] and "match_template(" in txt and "keywords=[]" in txt:
+                            has = True   # selected by a template that demands an empty keyword list
+                        if not fct[2] and txt.endswith(".keywords"):
+                            has = True   # `if node.keywords: <leave>` / `not node.keywords`
+                    ok = ok and has
+            ok_any = ok_any or ok
+        why = "keywords are forwarded" if passes_kwargs else "performed only for calls without keyword arguments" if ok_any else \
+            "the call is evaluated from its positional arguments although it may carry keyword arguments, which are dropped: the value differs from Python's (int('10', base=2), sorted(x, reverse=True), max(x, key=...))"
+        res.decide(ok_any, "R15.6", f.loc(c), f.fq, f"{short(c, 70)} # {kind}", why)
 
 
 # ---------------------------------------------------------------------------------------------- self-test
@@ -439,6 +497,11 @@ VARIANTS = [
     Variant("whitelist-as-union", "SILENT", "core",
             "        if isinstance(node.func, ast.Name) and node.func.id in constants.PURE_BUILTIN_FUNCTIONS:",
             "        if isinstance(node.func, ast.Name) and node.func.id in (constants.PURE_BUILTIN_FUNCTIONS | frozenset({\"abs\"})):"),
+    Variant("evaluator-memoised-by-node", "SILENT", "core", "def _literal_value(node: ast.AST) -> bool:", "@functools.lru_cache(maxsize=1000)\ndef _literal_value(node: ast.AST) -> bool:"),
+    Variant("builtin-results-memoised-by-value", "FIRE", "core",
+            "            args = [literal_value(arg) for arg in node.args]\n            return getattr(builtins, node.func.id)(*args)",
+            "            args = tuple(literal_value(arg) for arg in node.args)\n            return _memo_call(getattr(builtins, node.func.id), args)", "R15.8",
+            extra=[("core", "def _literal_value(node: ast.AST) -> bool:", "@functools.lru_cache(maxsize=1000, typed=True)\ndef _memo_call(function, args):\n    return function(*args)\n\n\ndef _literal_value(node: ast.AST) -> bool:")]),
     Variant("table-eq-as-lambda", "SILENT", "constants", "    ast.Eq: operator.eq,\n", "    ast.Eq: lambda a, b: a == b,\n"),
     Variant("table-reordered", "SILENT", "constants", "    ast.Eq: operator.eq,\n    ast.NotEq: operator.ne,\n", "    ast.NotEq: operator.ne,\n    ast.Eq: operator.eq,\n"),
     Variant("consumer-catches-more", "SILENT", "fixes",
